@@ -3,7 +3,7 @@
    batch = map over the arguments) are copies of the core loops and are checked against the SAME executable
    models as the core (the `py:` case lines dispatch to the core models).  What can be stated as theorems: *)
 From Coq Require Import NArith ZArith List Lia Bool ZifyN ZifyBool String.
-From KT Require Import Gen.Generated Gen.Alphabet Gen.GeneratedFacts Model.Kmer Model.Show Model.Ops Model.Rows Model.Pipeline.
+From KT Require Import Gen.Generated Gen.Alphabet Gen.GeneratedFacts Gen.UnsafeInv Gen.UnsafePyFacts Model.Kmer Model.Show Model.Ops Model.Rows Model.Pipeline.
 From KT Require Import Extract.Dispatch Proof.Utf8 Proof.RowsProof.
 Import ListNotations.
 Open Scope N_scope.
@@ -41,6 +41,11 @@ Theorem C13_python_ops_are_core_ops :
   forall line, dispatch (112 :: 121 :: 58 :: line) = dispatch0 line.
 Proof. reflexivity. Qed.
 
+(* the unsafe constructs of the bindings are exactly the modelled ones (the Arc-backed lifetime extension of the
+   iterators and the copy of the oligo loop); a new one is not covered by the correspondence of this property *)
+Theorem C13_no_uninventoried_unsafe_site : inv_eqb unsafe_bindings expected_unsafe_bindings = true.
+Proof. exact unsafe_bindings_ok. Qed.
+
 Example C13_example : fst (dispatch (str "py:kg 2 41c5814347"%string)) = fst (dispatch (str "kg 2 41c5814347"%string)).
 Proof. vm_compute. reflexivity. Qed.
 
@@ -49,3 +54,4 @@ Print Assumptions C13_utf8_of_ascii.
 Print Assumptions C13_high_bytes_are_ambiguous.
 Print Assumptions C13_batch_is_map.
 Print Assumptions C13_python_ops_are_core_ops.
+Print Assumptions C13_no_uninventoried_unsafe_site.
